@@ -55,6 +55,9 @@ pub struct LogInner {
     /// nb front-end only: the radio answers a TxRequest with `Txing` and reports completion
     /// later through a PHY event (the SendingJoin / SendingData states), instead of `TxDone`.
     pub tx_async: bool,
+    /// async front-end: what the board declares as `get_rx_window_buffer` (None: the trait's
+    /// default, equal to the lead time)
+    pub buffer_ms: Option<u32>,
 }
 
 pub type Log = Rc<RefCell<LogInner>>;
@@ -278,6 +281,10 @@ impl<const PW: u8, const G: i8> async_device::radio::PhyRxTx for AsRadio<PW, G> 
 impl<const PW: u8, const G: i8> async_device::Timings for AsRadio<PW, G> {
     fn get_rx_window_lead_time_ms(&self) -> u32 {
         self.log.borrow().lead_ms
+    }
+    fn get_rx_window_buffer(&self) -> u32 {
+        let l = self.log.borrow();
+        l.buffer_ms.unwrap_or(l.lead_ms)
     }
 }
 
